@@ -26,13 +26,21 @@ package strategy
 //@   ensures empty_deletes: len(newVal) == 0 ==> ghost_nput == old(ghost_nput) && ghost_ndel == old(ghost_ndel) + 1
 //@   ensures nowrite_if_equal: len(newVal) > 0 && seqEq(newVal, oldVal) ==> ghost_nput == old(ghost_nput) && ghost_ndel == old(ghost_ndel) && ghost_dirty == old(ghost_dirty)
 //@   ensures put_otherwise: len(newVal) > 0 && !seqEq(newVal, oldVal) ==> ghost_nput == old(ghost_nput) + 1 && ghost_ndel == old(ghost_ndel)
-
-// Ghost-level contract of the point-update strategy: it only writes through
-// setNewVal (content-level contract: C19).
-//@ func Update
-//@   trusted
-//@   modifies ghost_dirty, ghost_nput, ghost_ndel
 //@   ensures dirty_only_set: ghost_dirty == old(ghost_dirty) || ghost_dirty == 1
+
+// The point-update strategy: for every key the iterator delivers, the stored
+// value is looked up, handed to Merge, and exactly Merge's result for exactly
+// that key goes to setNewVal. If every Merge returns the stored bytes
+// themselves (nothing wins), nothing is written and the transaction stays clean.
+//@ func Update
+//@   modifies ghost_dirty, ghost_nput, ghost_ndel, ghost_itCount, ghost_mergeTouched
+//@   loop 0 invariant dirty_only_set: ghost_dirty == old(ghost_dirty) || ghost_dirty == 1
+//@   loop 0 invariant clean_if_nothing_wins: ghost_mergeTouched == 0 ==> ghost_nput == old(ghost_nput) && ghost_ndel == old(ghost_ndel) && ghost_dirty == old(ghost_dirty)
+//@   at_call lmdb.(*Txn).Get#0 assert looks_up_delivered_key: sameSlice(arg2, key)
+//@   at_call strategy.Iterator.Merge#0 assert merges_stored_value: sameSlice(arg1, dbv)
+//@   at_call strategy.setNewVal#0 assert writes_merge_result: sameSlice(arg2, key) && sameSlice(arg3, dbv) && sameSlice(arg4, val)
+//@   ensures dirty_only_set: ghost_dirty == old(ghost_dirty) || ghost_dirty == 1
+//@   ensures clean_if_nothing_wins: ghost_mergeTouched == 0 ==> ghost_nput == old(ghost_nput) && ghost_ndel == old(ghost_ndel) && ghost_dirty == old(ghost_dirty)
 
 //@ func IterUpdate
 //@   trusted
